@@ -178,15 +178,15 @@ def run(ctx, eng):
            'refilled', charged > 0 and not bad, '; '.join(sorted(set(bad)))
            or 'ok', node=f3.node)
     f4 = m.func(H + '_handle_data_on_closed_stream', required=False)
-    if f4 is not None:
-        paths4 = cm.normal_paths(eng.I.run(f4))
-    else:
-        # the helper is written out in the DATA handler: its paths are the
-        # handler's paths that met a closed stream
+    # read through the call: the handler's paths that met a closed stream,
+    # with the helper (if there is one) taken in - so that what is credited
+    # is named in the handler's terms, whichever side of the call computes it
+    I4 = eng.interp({f4.qual}, depth=1) if f4 is not None else eng.I
+    paths4 = [p for p in cm.normal_paths(I4.run(f3)) if any(
+        e.kind == 'catch' and 'StreamClosedError' in e.names
+        for e in p.events)]
+    if f4 is None:
         f4 = f3
-        paths4 = [p for p in cm.normal_paths(eng.I.run(f3)) if any(
-            e.kind == 'catch' and 'StreamClosedError' in e.names
-            for e in p.events)]
     bad = []
     n = 0
     for p in paths4:
